@@ -130,5 +130,13 @@ AsIsStep(m, e) ==
           [] OTHER -> m)
     [] OTHER -> m
 
+RECURSIVE AsIsRun(_, _)
+AsIsRun(m, stream) == IF stream = <<>> THEN m ELSE AsIsRun(AsIsStep(m, Head(stream)), Tail(stream))
+
+\* the real counters are exactly what the transcription of today's code predicts
+SameAsAsIs(m, a) ==
+  /\ a.sc_passed = m.sc_passed /\ a.sc_skipped = m.sc_skipped
+  /\ a.sc_failed = m.sc_failed /\ a.sc_retried = m.sc_retried
+
 AsIsFailed(m) == m.failed_steps > 0 \/ m.parsing_errors > 0 \/ m.hook_errors > 0
 =============================================================================
